@@ -9,3 +9,5 @@ import MicroHttp.Props.Tables
 #print axioms MicroHttp.C12.read_ignores_queue
 #print axioms MicroHttp.C12.pop_timing_irrelevant
 #print axioms MicroHttp.Tables.no_shared_state
+#print axioms MicroHttp.Tables.no_interior_mutability
+#print axioms MicroHttp.Tables.conn_new
